@@ -7,6 +7,7 @@ import AvroModel.Impl.Ocf
 import AvroModel.Impl.OcfHeader
 import AvroModel.Spec.Ocf
 import AvroModel.Spec.Observe
+import AvroModel.Impl.Single
 open Avro Avro.Impl Driver
 
 def Driver.ExtTable.toDenExt (t : ExtTable) : Spec.DenExt :=
@@ -335,6 +336,59 @@ def runGraph : P String := do
   let verdict := if panics.any id then "VIOLATION model out of fuel" else verdictRe
   pure (" ".intercalate ([pcfS, jsonS, frz] ++ (if re = "" then [] else [re])) ++ " # " ++ verdict)
 
+/-- `single <schema> <sv> <other> <k> bytes* [ext]`: single-object encoding. Oracle (C18): the
+    message is `C3 01`, the little-endian CRC-64-AVRO (specification) of the canonical form, then
+    the datum; it reads back under the schema from slice and reader alike; it is rejected under a
+    schema with another canonical form; every header truncation / corruption is rejected. -/
+def runSingle : P String := do
+  let sm ← pSchemaMut
+  let sv ← pSV
+  let other ← pSchemaMut
+  let variants ← pList pBytes
+  let ext ← pExtEntries {}
+  let S := freezeNodes sm
+  let So := freezeNodes other
+  let fuelOf := fun (n : Nat) => 8 * (n + 2) * (n + 2) * (n + 2) + 256
+  match S[0]?, So[0]?, schemaFingerprint sm (fuelOf sm.size), schemaFingerprint other (fuelOf other.size),
+        canonicalForm sm (fuelOf sm.size), canonicalForm other (fuelOf other.size) with
+  | some root, some rootO, .ok fp, .ok fpO, .ok pcfA, .ok pcfB =>
+    let readBoth := fun (bytes : Bytes) (fpX : Bytes) (Sx : Schema) (rootX : Node) =>
+      let datum := fun (st : RState) =>
+        let fuel := (64 + 4) * (1000000000 + 8 * Sx.size + 64) + 16 * st.rest.length + 4096
+        de deExtModel {} Sx fuel rootX 64 false .any st
+      let fmt := fun (r : Except DeErr Out × RState) => match r.1 with
+        | .ok o => s!"ok {outToString o}"
+        | .error .custom => "err custom" | .error .io => "err io" | .error .panic => "panic"
+      let a := fmt (fromSingleObject fpX datum { rest := bytes })
+      let b := fmt (fromSingleObject fpX datum { isSlice := false, rest := bytes, lastChunk := 1 })
+      (s!"{a} / {b}", a, b)
+    let (r, st) := toSingleObject fp (ser ext.toExt false S root sv) {}
+    match r with
+    | .error _ => pure "ser-err # n/a"
+    | .ok _ =>
+      let msg := st.out
+      let datumBytes := (ser ext.toExt false S root sv {}).2.out
+      let (o1, a1, b1) := readBoth msg fp S root
+      let (o2, a2, _) := readBoth msg fpO So rootO
+      let vs := variants.map fun b => readBoth b fp S root
+      let problems : List String :=
+        (if msg ≠ [0xC3, 0x01] ++ Spec.fingerprintLE pcfA.toUTF8.data.toList ++ datumBytes
+          then ["the message is not C3 01 ++ CRC-64-AVRO(canonical form) ++ datum"] else [])
+        ++ (if !a1.startsWith "ok" then ["the message does not read back under its schema"] else [])
+        ++ (if unborrowStr a1 ≠ unborrowStr b1 then ["slice and reader disagree on a single-object message"] else [])
+        ++ (if pcfA ≠ pcfB ∧ a2.startsWith "ok" ∧ fp ≠ fpO then ["decoded under a schema with another fingerprint"] else [])
+        ++ (if pcfA ≠ pcfB ∧ fp = fpO then ["n/a CRC collision between distinct canonical forms"] else [])
+        ++ ((variants.zip vs).filterMap fun (b, (_, a, bb)) =>
+              if b.length < 10 ∧ (a.startsWith "ok" ∨ bb.startsWith "ok") then some "input shorter than the header was accepted"
+              else if b.take 10 ≠ msg.take 10 ∧ b.length ≥ 10 ∧ (a.startsWith "ok" ∨ bb.startsWith "ok") then some "a corrupted header was accepted"
+              else none)
+      let verdict := match problems with | [] => "ok" | p :: _ => s!"VIOLATION {p}"
+      pure (" ; ".intercalate ([s!"ser {bytesToHex msg}", o1, o2] ++ vs.map (·.1)) ++ " # " ++ verdict)
+  | _, _, _, _, _, _ => pure "skip no canonical form"
+where
+  /-- compare outcomes up to the `borrowed` flags -/
+  unborrowStr (s : String) : String := (s.replace " 1" " 0")
+
 /-! ### Container writer histories -/
 
 open Avro.Impl.Ocf in
@@ -606,6 +660,7 @@ def dispatch (line : String) : String :=
       | "c11" => some runC11
       | "dealloc" => some runDealloc
       | "rt" => some runRt
+      | "single" => some runSingle
       | "schema" => some runSchema
       | "graph" => some runGraph
       | "reuse" => some runReuse
